@@ -5,6 +5,7 @@ Run as `lake env lean --run Driver.lean < requests > replies`. -/
 
 def dispatch (toks : List String) : String :=
   match toks with
+  | "c13" :: rest => Pb.Drv.C13.handle rest
   | "c14" :: rest => Pb.Drv.C14.handle rest
   | "c16" :: rest => Pb.Drv.C16.handle rest
   | "c17" :: rest => Pb.Drv.C17.handle rest
